@@ -108,7 +108,7 @@ class TWorld:
 
     def __init__(self, config=None, coroutine_handlers=False, app_kwargs=None, ws_read_timeout=False,
                  legacy_disconnect=False, clock=None, sched=None, handler_delay=None,
-                 preempt=False, timer_jitter=0.0, handler_style=None):
+                 preempt=False, timer_jitter=0.0, handler_style=None, farewell=False):
         import engineio
         self.clock = clock or vclock.reset()
         vclock.patch_engineio_time()
@@ -129,6 +129,7 @@ class TWorld:
         self.server = VServer(async_mode='verif', **cfg)
         self.app_log = AppLog(self)
         self.app_log.delay = dict(handler_delay or {})
+        self.app_log.farewell = bool(farewell)
         self.app_log.install(self.server, False, legacy_disconnect, sleep=vsched.vsleep,
                              style=handler_style)
         self.app = engineio.WSGIApp(self.server, **(app_kwargs or {}))
@@ -186,11 +187,16 @@ class TWorld:
         if declared is None and (body or method == 'POST'):
             declared = len(body)
         hdrs = list(headers)
+        undeclared = declared == 'absent'       # a body sent without Content-Length (chunked)
+        if undeclared:
+            declared = None
         if declared is not None:
             hdrs.append(('Content-Length', str(declared)))
         req = Req(self, method, path, query, hdrs, body, declared)
         env = self._environ(method, path, query, hdrs, scheme)
         env['wsgi.input'] = RecordingInput(req, body)
+        if undeclared:
+            env['wsgi.input_terminated'] = True     # (what gunicorn / werkzeug set then)
 
         def start_response(status, headers, exc_info=None):
             check_wsgi_start(req, status, headers, exc_info)
